@@ -7,6 +7,8 @@
 (*              clear and fed the same frames since                        *)
 (*   sinc_conv  the real Converter at ratio 1 over an instrumented source  *)
 (*   sinc_lin   four instances fed a, b, a+b, 2^k a, interpolated at j/16  *)
+(* Frame formats f64, f32, i16, i32 (mono / stereo); the i32 frames carry  *)
+(* values with more than 24 significant bits, up to full scale on the grid.*)
 (* Accepted iff (layer 1 of Sinc.tla, tolerances of the property)          *)
 (*   on the grid (x = 0; every converter output) the output is the frame   *)
 (*   pushed depth pushes ago, silence before: |out - it| <= 1e-12 * peak   *)
@@ -65,7 +67,7 @@ SrcPeak(c) ==
 AcceptReset ==
   LET c == Ev.cfg IN
   /\ Ev.comp \in {"sinc", "sinc_conv", "sinc_lin"} /\ Ev.r.k = "unit" /\ Ev.o.ok
-  /\ c.depth >= 1 /\ c.fmt \in {"f64", "f32", "i16"} /\ c.ch \in 1..2
+  /\ c.depth >= 1 /\ c.fmt \in {"f64", "f32", "i16", "i32"} /\ c.ch \in 1..2
   /\ (Ev.comp = "sinc_lin" => c.k \in (-8)..8)
 
 AcceptPush == /\ FrameOK(Ev.a.v) /\ Ev.r.k = "unit"
